@@ -5,6 +5,7 @@ import BSModel.Proofs.HeapLink
 import BSModel.Proofs.HeapSmooth
 import BSModel.Proofs.HeapDecomposeEffect
 import BSModel.Proofs.HeapCopySpec
+import BSModel.Proofs.HeapCopyTotal
 /-! # C02 — each editing call has exactly its documented effect on tree shape
 
 The forest is the pair (children lists, parent fields) of the pointer heap. The theorems give the closed form
@@ -328,6 +329,11 @@ theorem copy_pointwise {h h' : Heap} {x c : Nat} (hg : Good2 h) (hc : copy h x =
   refine ⟨?_, inv.img i d hi⟩
   rw [hdoc, List.getElem?_range' (by rw [← inv.len]; exact hlt)]
   simp
+
+/-- **on a consistent forest a copy never fails**: none of the model's error outcomes can occur, whatever is copied (a string, a tag with
+    any subtree, a BeautifulSoup object, an id that was never allocated) -/
+theorem copy_never_fails {h : Heap} (x : Nat) (hg : Good2 h) : ∃ h' c, copy h x = .ok (h', c) :=
+  copy_total x hg
 
 /-! non-vacuity: `t0` with children `[t1, s4]`, `t1` with children `[t2, s3]` (`wDeep` below): the copy of `t1` is `5 [6, 7]` -/
 example : ((run (Heap.init [.tag, .tag, .tag, .str, .str])
